@@ -208,7 +208,7 @@ pub fn run(rep: &Report) -> i32 {
                 Err(p) => rep.violation(format!("C07:value-panic:{}", drive::panic_site(&p)), format!("value conversion panicked for {} : {}: {p}", render_expr(&refmodel::val_expr(v, ty)), ty.render()), json!({"kind": "layout_value", "ty": ty.render(), "val": render_expr(&refmodel::val_expr(v, ty))})),
             }
         }
-        if i == 3 {
+        if i == 3 || rep.no_sample_yet() {
             rep.sample(3, || json!({"part": "b", "type": ty.render(), "values": values.len(), "first": values.first().map(|v| render_expr(&refmodel::val_expr(v, ty)))}));
         }
     });
